@@ -334,3 +334,48 @@ def gen_c02_boundary(rnd, n):
         h.append({"op": "get", "key": k})
         out.append(h)
     return {"hdr": True, "meaning": {}, "proj": True}, out
+
+
+def gen_c08x(rnd, n):
+    """extended monitoring on: sessions, subscriptions of every kind (same key twice, wildcard patterns,
+    $SYS patterns, the catch-all), locks with waiters, disconnects of holders and of waiters"""
+    clients = ["c1", "c2", "c3"]
+    keys = [["a"], ["a", "b"], ["b"], ["k", "x"]]
+    pats = [["a", "?"], ["#"], ["a", "#"], ["?", "b"], ["$SYS", "#"], ["$SYS", "locks", "#"], ["?"]]
+    reqs, connected = [], set()
+    tid = {c: 0 for c in clients}
+    subs = {c: [] for c in clients}
+    for _ in range(n):
+        c = rnd.choice(clients)
+        if c not in connected:
+            connected.add(c)
+            reqs.append({"op": "connect", "c": c, "proto": rnd.choice(["TCP", "WS"]), "addr": "j:null"})
+            continue
+        r = rnd.random()
+        k = rnd.choice(keys)
+        if r < 0.14:
+            tid[c] += 1
+            subs[c].append(tid[c])
+            reqs.append({"op": "sub", "c": c, "tid": tid[c], "key": k, "unique": rnd.random() < 0.5, "live": rnd.random() < 0.7})
+        elif r < 0.28:
+            tid[c] += 1
+            subs[c].append(tid[c])
+            reqs.append({"op": "psub", "c": c, "tid": tid[c], "pat": rnd.choice(pats), "unique": rnd.random() < 0.5, "live": rnd.random() < 0.7})
+        elif r < 0.42:
+            t = subs[c].pop(rnd.randrange(len(subs[c]))) if subs[c] and rnd.random() < 0.85 else 99
+            reqs.append({"op": "unsub", "c": c, "tid": t})
+        elif r < 0.52:
+            reqs.append({"op": "lock", "key": k, "c": c})
+        elif r < 0.64:
+            reqs.append({"op": "acquire", "key": k, "c": c})
+        elif r < 0.76:
+            reqs.append({"op": "release", "key": k, "c": c})
+        elif r < 0.86:
+            reqs.append({"op": "set", "key": k, "val": rnd.choice(["v1", "v2"]), "c": c})
+        elif r < 0.9:
+            reqs.append({"op": "pget", "pat": ["$SYS", "#"]})
+        else:
+            connected.discard(c)
+            subs[c] = []
+            reqs.append({"op": "disconnect", "c": c})
+    return {"hdr": True, "meaning": {}, "proj": True}, reqs
